@@ -10,6 +10,7 @@ import (
 	"strings"
 
 	"golang.org/x/text/language"
+	"seehuhn.de/go/postscript/cid"
 	"seehuhn.de/go/postscript/funit"
 	"seehuhn.de/go/sfnt"
 	"seehuhn.de/go/sfnt/cff"
@@ -951,8 +952,78 @@ func runC10(c *mon.Ctx) {
 		}
 		k.Class("cff-outlines-subset:" + info.Kind)
 	})
+	// CID-keyed subsets whose new glyph order holds a run of exactly 255, 256,
+	// 257 or 512 consecutive CIDs between isolated ones (the range formats of the
+	// charset hold at most 256 glyphs per format 1 range): written, read back,
+	// compared with the subset, and every CID compared with the original's
+	c.Stratum("cid-runs", c.N(16, 160), func(k *mon.Case) {
+		r := k.Rng
+		f, _ := fontgen.Font(r, fontgen.Opts{Kind: "cid", MinGlyphs: 560, MaxGlyphs: 700, Plain: true})
+		o, ok := f.Outlines.(*cff.Outlines)
+		if !ok || len(o.GIDToCID) != len(o.Glyphs) {
+			k.Skip("not a CID-keyed font")
+			return
+		}
+		n := len(o.Glyphs)
+		step := k.Index / 4 % 2 // 0: CID = GID, 1: CID = GID + 1000
+		for i := 1; i < n; i++ {
+			o.GIDToCID[i] = cid.CID(i + 1000*step)
+		}
+		run := []int{255, 256, 257, 512}[k.Index%4]
+		a := 3 + r.IntN(n-run-30)
+		list := []glyph.ID{0, glyph.ID(n - 5)}
+		for i := 0; i < run; i++ {
+			list = append(list, glyph.ID(a+i))
+		}
+		list = append(list, glyph.ID(n-20))
+		desc := fmt.Sprintf("cid font of %d glyphs, list 0, %d, %d..%d, %d", n, n-5, a, a+run-1, n-20)
+		var sub *sfnt.Font
+		if k.Guard("Subset", func() { sub = f.Subset(append([]glyph.ID(nil), list...)) }) {
+			return
+		}
+		so, ok := sub.Outlines.(*cff.Outlines)
+		if !ok || len(so.Glyphs) != len(list) || len(so.GIDToCID) != len(list) {
+			k.Fail("mismatch", "cid-runs:subset-shape", "the subset does not have one CID-keyed glyph per list entry (%s)", desc)
+			return
+		}
+		buf := &bytes.Buffer{}
+		var werr error
+		if k.Guard("Write(subset)", func() { _, werr = sub.Write(buf) }) {
+			return
+		}
+		if werr != nil {
+			k.Fail("mismatch", "cid-runs:subset-unwritable", "%v (%s)", werr, desc)
+			return
+		}
+		g, ok := readFont(k, buf.Bytes(), "Read(Write(subset))")
+		if !ok {
+			return
+		}
+		k.Eval()
+		go_, ok := g.Outlines.(*cff.Outlines)
+		if !ok || len(go_.GIDToCID) != len(list) {
+			k.Fail("mismatch", "cid-runs:read-back-shape", "the subset read back has no CID per glyph (%s)", desc)
+			return
+		}
+		for i, old := range list {
+			if go_.GIDToCID[i] != o.GIDToCID[old] || g.GlyphWidth(glyph.ID(i)) != f.GlyphWidth(old) {
+				k.Fail("mismatch", "cid-runs:cid-or-width-differs", "glyph %d of the subset read back has CID %d width %v; it is glyph %d of the original with CID %d width %v (%s)",
+					i, go_.GIDToCID[i], g.GlyphWidth(glyph.ID(i)), old, o.GIDToCID[old], f.GlyphWidth(old), desc)
+				return
+			}
+		}
+		want := normalForm(sub)
+		if sub.Gsub == nil {
+			want.Gsub = g.Gsub
+		}
+		if d := diffFonts(want, g); d != "" {
+			k.Fail("mismatch", "cid-runs:subset-roundtrip:"+firstDiffField(d), "Read(Write(subset)) differs from the subset (%s) (-want +got):\n%s", desc, d)
+			return
+		}
+		k.Class(fmt.Sprintf("cid-runs:run=%d", run))
+	})
 	c.Require("subset:cff-string-index-data=255", "cmap:format0-on-windows-platform", "list:all-codes-in-use,pairs-shuffled", "cff:encoding-256-codes", "cff:encoding-255-codes", "cmap-undecoded-subtable:format13", "cmap-undecoded-subtable:format10", "cmap-undecoded-subtable:format14", "cmap-undecoded-subtable:format0-mac-japanese", "callers-list-reused", "list:just-below-256", "list:ligature-chain-components-only", "kind=glyf", "kind=cff", "kind=cid", "cmap-compared", "encoding-compared", "kerning-compared", "gsub-rules-compared",
-		"written-and-read-back", "original-font-unchanged", "extras-appended:glyf", "cff-outlines-subset:cff", "cff-outlines-subset:cid")
+		"written-and-read-back", "original-font-unchanged", "extras-appended:glyf", "cff-outlines-subset:cff", "cff-outlines-subset:cid", "cid-runs:run=256", "cid-runs:run=512")
 }
 
 func dedup(a []string) []string {
